@@ -369,7 +369,7 @@ def jobs(tier):
         # measured under load (16 jobs in parallel): n=7,r=4 246 s; n=8,r=3 222 s; n=9,r=2 196 s; n=10,r=1 102 s; beyond: unknown at 300 s
         sizes += [(n, r) for n in range(2, 8) for r in (3, 4) if not (n == 7 and r == 4)] + [(8, 3), (9, 1), (9, 2), (10, 1)]
     for n, r in sizes:
-        js.append(Job(f"step/n{n}/r{r}", job_step, dict(n=n, rounds=r, timeout_s=300 if tier == "quick" else 900), "earliest_slot", 1200))
+        js.append(Job(f"step/n{n}/r{r}", job_step, dict(n=n, rounds=r, timeout_s=300 if tier == "quick" else 900), "earliest_slot", 1200, optional=True))
         js.append(Job(f"prefix/n{n}/r{r}", job_prefix, dict(n=n, rounds=r), "earliest_slot", 300))
     for n, r, L in [(4, 2, 3), (4, 3, 3), (5, 2, 3), (4, 3, 4)] + ([(6, 2, 3), (6, 3, 4), (5, 3, 4), (4, 4, 5)] if tier == "thorough" else []):
         js.append(Job(f"short/n{n}/r{r}/L{L}", job_short, dict(n=n, rounds=r, L=L, timeout_s=600), "earliest_slot", 800))
